@@ -34,7 +34,9 @@ def _work(args):
     ways = [(m, False) for m in SERIAL] + [(m, aa) for m in BYLINE for aa in (False, True)]
     if quick:
         ways = [ways[i] for i in sorted(rng.sample(range(len(ways)), 4))]
-    return run_group_ways(members, grp["records"], gi * 1000, ways)
+    # the dialect of the CsvPaths instance is the dialect of every member and of the loop that reads the file line by line
+    dia = rng.choice([None, None, None, {"delimiter": ";", "quotechar": '"'}, {"delimiter": "|", "quotechar": "'"}])
+    return run_group_ways(members, grp["records"], gi * 1000, ways, dia=dia)
 
 
 def _work_pool(case):
@@ -43,11 +45,13 @@ def _work_pool(case):
     return run_group_ways(case["members"], case["records"], 5000000 + case["tid"] * 100, [(case["method"], case["allAgree"])])
 
 
-def run_group_ways(members, records, base, ways):
+def run_group_ways(members, records, base, ways, dia=None):
     traces, scheds, infos = [], [], {}
     # (1) standalone
     for mi, mc in enumerate(members):
         case = {"tid": base + mi, "prog": mc["prog"], "records": records, "cfg": dict(mc["cfg"])}
+        if dia:
+            case["dialect"] = dia
         rec, info = runtrace.run_case(case, "collect")
         if rec is None:
             return {"oom": True}
@@ -58,7 +62,7 @@ def run_group_ways(members, records, base, ways):
         r = grouprun.Recorder()
         try:
             with scratch.silence():
-                cp = grouprun.setup_project("grp", records, {"g": texts})
+                cp = grouprun.setup_project("grp", records, {"g": texts}, **(dia or {}))
                 r.install()
                 kw = {"if_all_agree": all_agree} if method in BYLINE else {}
                 out = pharness.run_method(cp, method, "g", "data", **kw)
@@ -77,7 +81,7 @@ def run_group_ways(members, records, base, ways):
         if method in ("collect_paths", "next_paths", "collect_by_line", "next_by_line"):
             try:
                 results = cp.results_manager.get_named_results("g")
-                kept = [pharness.read_csv(os.path.join(res.instance_dir, "data.csv")) or [] for res in results]
+                kept = [pharness.read_csv(os.path.join(res.instance_dir, "data.csv"), **(dia or {})) or [] for res in results]
             except Exception:
                 import traceback
 
